@@ -35,6 +35,7 @@ class CallGraph:
         self.sites = {}      # (caller, callee) -> list of (bb, span)
         self.unresolved = []  # (caller, bb, description)
         self.external = {}   # caller -> set(external callee names)
+        self._impl_index = None
         self._build()
 
     def _add(self, a, b, bb=None, sp=None):
@@ -56,6 +57,18 @@ class CallGraph:
             if cand in self.prog.fns:
                 return cand
         return None
+
+    def _impl_methods(self, fn_full):
+        m = re.match(r"^<(.+) as ([^<>]+(?:<.*>)?)>::\w+$", fn_full or "")
+        if not m:
+            return []
+        if self._impl_index is None:
+            self._impl_index = {}
+            for n in self.prog.fns:
+                mm = re.match(r"^(lace|bin)::(<.+ as .+>)::[^:]+$", n)
+                if mm:
+                    self._impl_index.setdefault(mm.group(2), []).append(n)
+        return self._impl_index.get("<%s as %s>" % (m.group(1), m.group(2)), [])
 
     def _build(self):
         fns = self.prog.fns
@@ -93,6 +106,11 @@ class CallGraph:
                         ft = self._fmt_target(c, fo.get("targs", []), f.crate.prefix)
                         if ft:
                             self._add(name, ft, b, t.get("sp"))
+                        # a trait's provided method on a local type (`<NormalWriter as fmt::Write>::write_fmt`) runs in the
+                        # trait's crate and calls back into the type's own required methods (`write_str`)
+                        if c not in fns:
+                            for tgt in self._impl_methods(fo.get("fn_full")):
+                                self._add(name, tgt, b, t.get("sp"))
                     for a in t["args"]:
                         self._const_edges(name, a, b, t.get("sp"))
                 elif t["k"] == "switch":
